@@ -15,15 +15,18 @@ C09_CITED = ["tables_agree", "assoc_agrees", "ternary_level", "unary_tables_agre
              "roundtrip_block_partial", "roundtrip_decl_partial", "negative_literal_binds_like_minus", "source_fingerprints"]
 TEXT_THEOREMS = ["right_nested_chain_regrouped_changes_meaning"]
 DUP_THEOREMS = ["dup_sites_guarded", "guard_rows_are_ir_constructors", "repeatable_operand_is_pure_of_sound", "repeatable_operand_is_pure",
-                "struct_cast_meaning_kept", "struct_cast_refuses_iff", "wf_toD", "repeatable_operand_is_pure_ir_of_sound",
-                "repeatable_operand_is_pure_ir", "index_blind_test_repeats_effect"]
+                "struct_cast_meaning_kept", "struct_cast_clauses", "struct_cast_refuses_iff", "tested_operand_is_pure_of_sound",
+                "rem_assign_operands_are_pure", "wf_toD", "repeatable_operand_is_pure_ir_of_sound",
+                "repeatable_operand_is_pure_ir", "rem_assign_operands_are_pure_ir", "index_blind_test_repeats_effect"]
 VEC_THEOREMS = ["msl_exporter_vec_shape_as_modelled", "msl_swizzle_letters_are_identity", "msl_vector_type_names_roundtrip",
                 "vec1_is_named_as_scalar", "vec_shape_sound", "gen_sem_msl_vec_expr", "gen_sem_msl_vec_assign", "msl_vector_op_literal_in_concrete_type",
                 "literal_vector_cast_panics_msl",
-                "mulMV_toMetal", "ctor_from_scalars_transposes", "metal_subscript_is_a_column", "narrowing_to_vec1_is_not_metal"]
+                "mulMV_toMetal", "ctor_from_scalars_transposes", "metal_subscript_is_a_column",
+                "cast_to_vec1_selects_first_component", "msl_float_remainder_assignment_keeps_meaning"]
 SEM_THEOREMS = ["msl_exporter_shape_as_modelled", "msl_op_table_is_identity", "msl_literal_arms_same_as_hlsl", "msl_genLiteral_eq", "msl_literal_never_panics",
                 "gen_sem_expr", "gen_sem_expr_plain", "gen_sem_args", "gen_sem_stmt", "gen_sem_stmts", "gen_sem_func",
                 "trampoline_copy_semantics", "gen_sem_program", "ir_frame", "gen_sem_signatures",
+                "float_remainder_assignment_exported",
                 "int_min_literal_changes_meaning", "literal_arithmetic_changes_meaning", "inout_copy_in_order_changes_meaning"]
 
 POSITIONS = ["xs", "vi", "ai", "bl", "ic", "ib", "ec", "et", "ee", "fi", "fd", "fc", "fa", "fb", "wc", "wb", "db", "dc",
@@ -164,6 +167,9 @@ def search(ctx):
         ("struct S { float3 a; int2 b; };\nint f(S s, int k) { s.b.y = k; return s.b.y + (int)s.a.z; }", "S(V(f:3f800000 f:40000000 f:40400000) V(i:00000001 i:00000002)),i:00000009"),
     ]:
         out.append("C02.vfn\t%s\tf\t%s\t-\t-" % (src, args))
+    # subscripts of matrices whose type carries a modifier: refused today (UnimplementedMatrixIndex); `m[i]` is a column in Metal
+    out.append("C02.vfn\tfloat3 pick(float3x3 p, float3 v)\\n{\\n    const float3x3 m = p;\\n    return m[1] + v;\\n}\\n"
+               "float elem(float2x3 p)\\n{\\n    const float2x3 m = p;\\n    return m[1][0] + m[0][2];\\n}\\n\t-\t\t-\t-")
     # operand repetition: struct casts (1 / 4 / 7 elements) from every operand shape, with and without an effect in the
     # operand or in an index below it; then an effect in each operand position the exporter writes once today
     pre = ("struct I2 { int p; int q; };\\nstatic int gk = 3;\\nstatic int gcount = 0;\\n"
@@ -269,11 +275,19 @@ SPEC = {
             "of 38 operands (7 leaves, 9 effect-free non-leaves, 22 with an effect) below a cast to a one-element and to a four-element "
             "struct, every compound operator (10 integer, 5 floating) at 5 kinds of target whose index has an effect, 19 further statements "
             "(scalar -> vector casts, constructors, swizzles of scalars, ++ on elements, swizzled stores, ?:, max/min/clamp/select/abs/dot/"
-            "mul, inout arguments, methods of subscripted objects, matrix from a scalar) x int/uint/float — then random ones over ten struct "
-            "shapes (nested structs, arrays of structs, vector members, mixed element kinds) and five statement positions; the two "
-            "evaluators count effects exactly (final inout arguments, final statics), so an operand written twice is a difference. C02.dup "
-            "sends every struct cast of these modules (type shape + constructor tree of the operand, read off the real ir::Module) to the "
-            "Lean model of the arm and compares its decision and clause counts with the emitted module. Text leg (harness/src/c02/text.rs, "
+            "mul, inout arguments, methods of subscripted objects, matrix from a scalar; select() with two operands whose effects depend on "
+            "each other) x int/uint/float, and (fixes 92d66eb + 35faaaa) `%=` on floating-point targets: 21 targets (15 plain places — "
+            "parameter, static, local, elements with constant / arithmetic / cast / unary indices, members of elements, vectors, swizzles, "
+            "components, vector elements, member variables inside a method — and 6 the exporter refuses: an index with ++, a call, ?:, a "
+            "built-in) x 8 right operands (4 free of writes, 4 that write: a call, an assignment, ++, also of the target itself) — then "
+            "random ones over ten struct shapes (nested structs, arrays of structs, vector members, mixed element kinds) and five "
+            "statement positions; the two evaluators count effects exactly (final inout arguments, final statics), so an operand written "
+            "twice or read at another moment is a difference. C02.dup sends every struct cast of these modules (type shape with the "
+            "element type ids + type id and constructor tree of the operand, read off the real ir::Module) and every `%=` on a "
+            "floating-point target (constructor trees of target and right operand, operators by name) to the Lean model of the two arms "
+            "and compares its decisions — refuse with UnsupportedCast / ComplexRemainderAssignment, or per braced list the number of "
+            "clauses and which clauses are equal (the operand itself / the operand converted to element type K), and the number of "
+            "`A = metal::fmod(A, B)` — with the emitted module. Text leg (harness/src/c02/text.rs, "
             "every program of C02.gen / C02.vfn / C02.vex / C02.dup): the text of the public route rssl_msl::export_to_msl must be "
             "rssl_formatter::format(hooked tree, Msl), and the body of every emitted function and every file-scope initialiser, printed by "
             "the real formatter for Target::Msl and read back by the real rssl preprocessor + parser (C09's harness machinery, "
@@ -282,7 +296,11 @@ SPEC = {
             "the IR; statements the rssl parser cannot read (the trampoline's local `out`, braced struct lists) are counted, not judged. "
             "Operator chains (sem.rs chain_programs, every tier): {float, int, uint, bool} x every accepted binary operator x 12-16 shapes "
             "(right-nested, both sides, same-precedence partners, below casts / calls / ?: / unary minus / comma, statement forms) on grids "
-            "where float regrouping changes the IEEE result (1e30, -1e30, 1; 2^24, 1, 1; 1e-30, 1e30, 1e30)",
+            "where float regrouping changes the IEEE result (1e30, -1e30, 1; 2^24, 1, 1; 1e-30, 1e30, 1e30); plus, for float and int, "
+            "`%=` programs: six accepted forms in one module (targets parameter / static / local, right operands arithmetic, ?:, the "
+            "target itself) and five modules with a right operand that writes or a target that is no plain place (refused on floats, "
+            "exported on integers) — the float `%=` of the Lean scalar model; C02.vex: 1 in 5 of the extra functions is a statement-level "
+            "`%=` on a float vector / swizzle (the Lean vector model)",
     "level_text": "Proof of the logic of implicit threading: the usage fixpoint loop (modelled with explicit key iteration "
                   "order, explicit unwrap failures and fuel) is proved for every table to terminate within |keys|^2+1 passes "
                   "without panicking, to compute exactly reachability through the local-use relation independently of the "
@@ -297,12 +315,17 @@ SPEC = {
                   "re-extracted on every run: Gen.MslGenTables) it is proved, for every interpretation of the float / "
                   "conversion / division primitives, every fuel and every call depth, that the C++/Metal reading of the "
                   "emitted tree (Spec/SemMsl: int/long literal types, promotions, shift rule, by-value and thread-reference "
-                  "parameters, overloads by tag) equals the typed IR semantics of C01: gen_sem_expr, gen_sem_stmt(s), "
+                  "parameters, overloads by tag; `%` / `%=` undefined on float) equals the typed IR semantics of C01: gen_sem_expr, gen_sem_stmt(s), "
                   "gen_sem_func (body-carrying definition with statics reachable only through the reference parameters), "
                   "trampoline_copy_semantics (the emitted trampoline called with arbitrary, possibly aliasing, caller "
                   "variables = copy-in, typed function, copy-out in parameter order) and gen_sem_program (Metal call = "
                   "typed copy-in/copy-out call at every depth, under the semantic precondition that functions with out "
-                  "parameters do not depend on their entry value). Outside the side conditions the statement is false on the current code: "
+                  "parameters do not depend on their entry value). `x %= y` on floats (Metal has no such operator; known finding until fix "
+                  "batch 3, and this development's Metal reading was lenient about it) is exported since fixes 92d66eb + 35faaaa as "
+                  "`x = metal::fmod(x, y)` when is_plain_place(x) and is_free_of_writes(y), else refused with ComplexRemainderAssignment: the "
+                  "model follows the re-extracted guard tables, gen_sem_expr covers the emitted form with the exporter's own guard as the "
+                  "only condition (freeOfWrites_pure: an accepted right operand is pure, so reading the target before it — emitted form — or "
+                  "after it — typed `%=` — is the same; float_remainder_assignment_exported). Outside the side conditions the statement is false on the current code: "
                   "negations with witnesses (INT_MIN / literal arithmetic typed long/int in Metal; inout copy-in after "
                   "later arguments), both replayed on the real exporter as known findings. The Metal generate_literal never "
                   "panics on a modelled constant (msl_literal_never_panics: an IntLiteral beyond +-u64::MAX is the export error "
@@ -316,27 +339,40 @@ SPEC = {
                   "type and evaluates to the IR's value and store for every store, every interpretation of the primitives and "
                   "every well-shaped value of the vector variables; vec_shape_sound (the typed semantics yields values of the "
                   "static shape) discharges the static decisions; gen_sem_msl_vec_assign covers statement-level assignment and "
-                  "compound assignment to vector variables and swizzles; mulMV_toMetal proves that on the exporter's matrix "
+                  "compound assignment to vector variables and swizzles with EVERY assignment operator — `%=` on floats included since fixes "
+                  "92d66eb + 35faaaa: whatever the exporter emits for the assignment (`l op r`, or `l = metal::fmod(l, r)`) leaves the typed "
+                  "assignment's value and stores (msl_float_remainder_assignment_keeps_meaning); mulMV_toMetal proves that on the exporter's matrix "
                   "correspondence (floatRxC |-> metal::floatCxR, the same logical matrix by columns) Metal's M*v is RSSL's "
                   "mul(M,v); a vector operation with a literal operand (`boolvec + 1`, `intvec * 1.5`, `c ? v : 1.5`), typed in "
                   "the concrete vector type since fixes 40c6233 / c05bffa (before: a panic of the exporter, two known findings, now "
                   "fixed records), is proved exported with its meaning kept (msl_vector_op_literal_in_concrete_type, instances of "
                   "gen_sem_msl_vec_expr through the extended side condition VOk.litOperandOK); "
-                  "negation witnesses: the matrix constructor keeps row-major argument order (transposed matrix), "
-                  "(float1)v is emitted as an ill-typed (float)v. Matrices, structs, arrays, enums, methods, calls with vector "
+                  "a cast of a vector to a one-component vector — `(float1)v` was emitted as the ill-typed `(float)v`, known finding, negation "
+                  "witness — is exported since fix b6f2da1 as `(float)v.x` exactly like the scalar cast, typed as the scalar that float1 is on "
+                  "Metal, with the single component of the typed cast's value (cast_to_vec1_selects_first_component, for every operand of the "
+                  "layer); negation witnesses left: the matrix constructor keeps row-major argument order (transposed matrix), m[i] is a "
+                  "column. Matrices, structs, arrays, enums, methods, calls with vector "
                   "arguments are covered by the correspondence streams only. Operand repetition (Thm/C02Dup): Gen.MslDupSites lists on "
                   "every run each explicit copy (.clone() / .cloned() / .to_vec() / vec![x; n] / repeat) in the Metal back end's seven files, "
                   "each arm that contains one generator call twice and the text-building macros in generate_expression — the only ways an "
                   "operand can reach the output twice, since syntax-tree values are not Copy; dup_sites_guarded checks the list against a "
-                  "reviewed classification (exactly one site repeats a generated operand: the struct half of the Cast arm), pins how often "
-                  "(get_member_count) and what happens otherwise (UnsupportedCast), and proves the re-extracted side-effect test SOUND: every "
-                  "constructor it accepts is strict and without effect and ALL its expression-typed fields (read off enum ir::Expression) are "
-                  "tested. repeatable_operand_is_pure: for every meaning of calls, operators, ?: and sequences (Spec.MslDup.Interp) an operand "
+                  "reviewed classification (three copies repeat an operand of the program, in two arms: inner.clone() and expr.clone() in the "
+                  "struct half of the Cast arm — one clause per element type of get_member_types, the operand itself or, fix 5d2f434, the "
+                  "operand below a cast to the element's type — and exprs[0].clone() in the floating-point RemainderAssignment arm, the only "
+                  "arm of the operator table with the assignment form), pins what happens otherwise (UnsupportedCast / "
+                  "ComplexRemainderAssignment), and proves the re-extracted tests SOUND: every constructor they accept is without effect of "
+                  "its own (strict and pure, ?:, or an IntrinsicOp restricted to arithmetic / bitwise / comparison / boolean operators) and "
+                  "ALL its expression-typed fields (read off enum ir::Expression) are tested — structCastGuard, is_plain_place with "
+                  "is_plain_index, is_free_of_writes. repeatable_operand_is_pure / tested_operand_is_pure_of_sound / "
+                  "rem_assign_operands_are_pure: for every meaning of calls, operators, ?: and sequences (Spec.MslDup.Interp) an operand "
                   "accepted by a sound test leaves the store unchanged, so n evaluations give n copies of the one value and the store of one "
-                  "evaluation; struct_cast_meaning_kept: whenever the modelled arm emits n clauses they evaluate to n times the operand's value "
-                  "with the final store of ONE evaluation (also through the one-element branch and for n = 0); repeatable_operand_is_pure_ir: the "
-                  "same on C01's typed IR (Ir.eval) for every World / Prim; index_blind_test_repeats_effect: the test of seeded mutant C02-3 is "
-                  "not sound and S { arr[i++], arr[i++] } differs from one evaluation (negation with witness). The model of the arm is tied to "
+                  "evaluation; struct_cast_meaning_kept: whenever the modelled arm emits the clauses c1..cn they evaluate to the operand's ONE value — "
+                  "converted by the cast's own step where the clause converts — with the final store of ONE evaluation, undefined exactly when "
+                  "a conversion is (also through the one-element branch and for n = 0); struct_cast_clauses: a clause copies exactly for an "
+                  "element of the operand's type or a literal operand; repeatable_operand_is_pure_ir / rem_assign_operands_are_pure_ir: the "
+                  "same on C01's typed IR (Ir.eval) for every World / Prim (a rewritten `%=` has a local / parameter / global as target and a "
+                  "right operand that is pure in the sense the scalar proof uses); index_blind_test_repeats_effect: the test of seeded mutant C02-3 is "
+                  "not sound and S { arr[i++], arr[i++] } differs from one evaluation (negation with witness). The models of the two arms are tied to "
                   "the code by the pinned text and by stream C02.dup (0 disagreements). Text leg: all of the above speaks about the syntax tree "
                   "the back end hands to rssl_formatter; that the emitted TEXT denotes this tree is property C09's, whose obligations are "
                   "obligations of C02 too (Gen.FmtTables / ParseTables / SyntaxTables regenerated and Thm.C09 built in every C02 run; cited: "
@@ -361,7 +397,10 @@ SPEC = {
         "generate_scalar_type and exact-text facts about every modelled arm of generate_expression, generate_statement, "
         "generate_scope_block, generate_for_init, generate_variable_definition, generate_user_call, "
         "generate_function_param, generate_function_inner, generate_function_and_trampoline, "
-        "generate_function_out_trampoline_body (an edit of any of them flips a fact and msl_exporter_shape_as_modelled stops checking); "
+        "generate_function_out_trampoline_body (an edit of any of them flips a fact and msl_exporter_shape_as_modelled stops checking); the "
+        "RemainderAssignment arm of generate_intrinsic_op is pinned as text around its three local tests (is_plain_place, is_plain_index, "
+        "is_free_of_writes), which are parsed into tables (constructor, operator alternatives, fields handed to which test; `_ => false`): "
+        "any other shape is an extraction failure; "
         "a `return Err(GenerateError::e)` arm of generate_literal is the table entry `.errs e`, which the model answers as the "
         "exporter's diagnostic (Except.error (.diag e)), never as a panic",
         "Spec/SemMsl.lean: our reading of Metal (C++14): an unsuffixed integer literal is int below 2^31, else a 64-bit long; "
@@ -369,7 +408,7 @@ SPEC = {
         "relational operators; int,uint -> uint, anything with long -> long, anything with float -> float; a shift has the "
         "promoted type of its left operand and takes the count modulo the width (Metal spec); int/uint arithmetic wraps; "
         "integer division, float arithmetic and conversions are the shared abstract primitives; metal::fmod is the float "
-        "remainder the IR's % denotes; &&, ||, ?: short-circuit; arguments and operands are evaluated left to right; "
+        "remainder the IR's % denotes, the operators % and %= have no type and no value on float (strict since fix batch 3); &&, ||, ?: short-circuit; arguments and operands are evaluated left to right; "
         "T-name parameters by value, thread-T&-name parameters bind the argument variable's location; locals live at "
         "fixed frame slots (flat store shared with C01: no recursion), the trampoline's `out` is reclaimed at return",
         "the typed IR semantics Spec/Sem + Spec/SemStmt of C01 (shared, unchanged): in particular an out/inout argument is "
@@ -377,7 +416,8 @@ SPEC = {
         "harness/src/c02/msleval.rs: an independent Rust implementation of the same Metal reading; the Lean Msl.phi and it "
         "are compared on every generated case (0 disagreements), as are Lean Ir.phi and the Rust IR evaluator of C01",
         "tools/gens/c02.py (MslVecTables): exact-text facts about the Swizzle / Constructor / Cast arms of the Metal "
-        "generate_expression, try_implicit_truncate's three members, the Vector / Matrix arms of generate_type_impl, the Mul / "
+        "generate_expression, try_implicit_truncate's three members and its guards (`.x` for a scalar or one-component target from an "
+        "operand of more than one component: fix b6f2da1), the Vector / Matrix arms of generate_type_impl, the Mul / "
         "Transpose arms of generate_intrinsic_function, the rejection of matrix subscripts / matrix swizzles",
         "Spec/SemMslVec.lean: our reading of Metal's vector rules (MSL specification): type names bool/int/uint/float and "
         "T2..T4 only; implicit conversion scalar->scalar and scalar->vector only; explicit conversion scalar->scalar, "
@@ -390,20 +430,25 @@ SPEC = {
         "tools/gens/c02.py (MslDupSites): the regular expression that finds explicit copies, the innermost-function / innermost-arm "
         "attribution, the parser of the side-effect test (a flat `match **expr` or a local recursive helper; any other shape is an "
         "extraction failure = broken obligation), the field types of enum ir::Expression; Thm/C02Dup.reviewed: our reading of what each "
-        "of the 50 copy sites copies (type / name / list, expression made by the back end itself, operand moved into its replacement, "
+        "of the 53 copy sites copies (type / name / list, expression made by the back end itself, operand moved into its replacement, "
         "initialiser per entry wrapper, repeated operand)",
         "Spec/MslDup.lean: which constructors of ir::Expression are strict and free of effects of their own (leaves, member / element / "
-        "component selection, Cast, Constructor, SizeOf: `strictPure`) — every other constructor is an arbitrary state transformer; Rust: "
+        "component selection, Cast, Constructor, SizeOf: `strictPure`), which operators of IntrinsicOp have no effect of their own "
+        "(`pureOps`: all but ++ / --, the assignments, MakeSigned*, MeshOutput*; evaluated left to right, possibly stopping early: && ||), "
+        "that ?: evaluates its condition and one branch — every other constructor is an arbitrary state transformer; Rust: "
         "a value of a type that is not Copy is used at most once unless explicitly copied",
         "C++14 aggregate initialisation as read by vmev_expr.rs: brace elision (a sub-aggregate without braces takes as many clauses as "
         "it has elements, a vector / matrix / scalar one), clauses evaluated left to right, missing clauses value-initialise, a "
         "narrowing conversion of a clause is ill-formed (float -> int always; int -> float / other integer type unless a constant that "
-        "fits; a literal, a signed literal or a file-scope `constant` is a constant); c01/virev.rs: `(S)x` for a scalar x gives every "
+        "fits; a literal, a signed literal or a file-scope `constant` is a constant: since fix 5d2f434 only a LITERAL operand still reaches "
+        "a clause unconverted); c01/virev.rs: `(S)x` for a scalar x gives every "
         "scalar element of S the value x converted to the element's type (HLSL's scalar-to-struct cast; the operand evaluated once)",
         "harness/src/c02/vmev*.rs: an independent Rust implementation of the Metal reading extended to matrices, structs, "
         "arrays, enums, methods, references, aggregates and the metal:: library names (uninterpreted built-ins of c01/vval.rs "
         "under the name of the RSSL built-in they implement; `1 / x` = rcp; select argument order reversed); compared with "
-        "the Lean VMsl.eval through the model answers of C02.vex, and with C01's IR evaluator on every C02.vfn case",
+        "the Lean VMsl.eval through the model answers of C02.vex, and with C01's IR evaluator on every C02.vfn case; function "
+        "arguments are evaluated left to right (C++ leaves the order unspecified; the typed semantics is left to right): the alternative "
+        "reading used to classify a difference evaluates the operands of metal::select in the source's order",
         "text leg: the rssl parser is used as the reader of the emitted Metal text (function bodies of the subset are C-like; Metal and "
         "rssl agree on the precedence and associativity of the C operators, ?: and the comma — our reading of the MSL / C++14 grammar); "
         "harness/src/c09.rs statement_text_trip + C09's serialisation / ambiguity resolution (ser_stmt, resolve_stmt, align); C09's "
@@ -429,7 +474,9 @@ SPEC = {
         "syntactically (SynOK) that no function mentions a trampoline's scratch slot and that a void function with a "
         "trampoline has no `return e;`",
         "vector layer, side conditions of gen_sem_msl_vec_expr / _assign (Spec/SemMslVec VOk.okMV, placeOKM): types are "
-        "bool/int/uint/float scalars or 2-4 component vectors (no float1: emitted as the scalar, known finding for the cast; "
+        "bool/int/uint/float scalars or 2-4 component vectors (no float1 operands or variables: emitted as the scalar, the value would "
+        "change representation — the cast of a vector TO float1, repaired by b6f2da1, has its own theorem "
+        "cast_to_vec1_selects_first_component; "
         "no literal kinds: since fixes 40c6233 / c05bffa the type checker no longer computes in vectors of a literal type — the "
         "two panic findings are fixed records — and the literal operand it now converts to the concrete type, `(int3)1`, "
         "`(float3)1.5`, is inside the side conditions for integer literals of magnitude below 2^31 and floating literals "
@@ -438,12 +485,14 @@ SPEC = {
         "C++: oracle only); scalar leaves satisfy the scalar side conditions and are not the bare Int32(i32::MIN); vector "
         "variables are in scope under their emitted names (C15) and hold values of their declared shape (vec_shape_sound "
         "propagates it); `&&` `||` `?:` have scalar bool conditions (the type checker's own restriction in VIr.typeOf); "
-        "assignment targets are vector variables or swizzles with distinct components of variables of vector type; `%=` on "
-        "integers only (on floats: known finding). 95% of the generated expression / assignment functions satisfy them",
+        "assignment targets are vector variables or swizzles with distinct components of variables of vector type (every assignment "
+        "operator; `%=` on floats since fixes 92d66eb + 35faaaa). 96% of the generated expression / assignment functions satisfy them",
         "operand repetition: the theorems speak about the repetition decision and the effect of repeating (store and value of the "
         "operand); that each clause then initialises its element with the converted value is the Metal reading's business (oracle only; "
-        "where the element kind differs from the operand's in a narrowing direction the emitted list is ill-formed: known finding "
-        "metal-narrowing-conversion-in-braces). Casts from a ConstantBuffer<S> object and to unbounded arrays are outside the subset",
+        "since fix 5d2f434 every clause of a non-literal operand is converted to its element's type; a LITERAL operand is still written "
+        "as it is, ill-formed where a floating literal meets an integer element or an integer literal does not fit: known finding "
+        "metal-narrowing-literal-in-braces). The operands of metal::select are emitted in reverse order: two operands whose effects "
+        "depend on each other run in the other order (known finding metal-select-operand-order). Casts from a ConstantBuffer<S> object and to unbounded arrays are outside the subset",
         "vector stream oracle: a method call whose argument writes the object is skipped (C01's typed evaluator copies the "
         "object in and out, C++ and DXC pass `this` by reference: not a difference of the exporter); built-ins whose Metal form "
         "is not a call of one library function (sign on ints, rcp only as `1 / x`) are skipped or read as stated above; initial "
